@@ -402,7 +402,7 @@ FormatterToXML::initAttrCharsMap()
         m_attrCharsMap[i] = 'S';
     }
 
-    for(size_t j = 0x7F; j < 0x9F; j++)
+    for(size_t j = 0x7F; j <= 0x9F; j++)
     {
         m_attrCharsMap[j] = 'S';
     }
@@ -427,7 +427,7 @@ FormatterToXML::initCharsMap()
         m_charsMap[i] = 'S';
     }
 
-    for(size_t j = 0x7F; j < 0x9F; j++)
+    for(size_t j = 0x7F; j <= 0x9F; j++)
     {
         m_charsMap[j] = 'S';
     }
@@ -891,16 +891,14 @@ FormatterToXML::accumDefaultEscape(
         }
         else 
         {
-            if(ch > m_maxCharacter)
+            if(ch > m_maxCharacter ||
+               (m_isXML1_1 && XalanUnicode::charLSEP == ch))
             {
-                if( !m_isXML1_1 && XalanUnicode::charLSEP == ch ) 
-                {
-                    throwInvalidCharacterException(ch, getMemoryManager());
-                }
-                else
-                {
-                    writeNumberedEntityReference(ch);
-                }
+                // U+2028 is an ordinary character in XML 1.0.  In
+                // XML 1.1 it is a line end, which a parser turns
+                // into a line feed unless it is written as a
+                // reference.
+                writeNumberedEntityReference(ch);
             }
             else if(ch < SPECIALSSIZE && m_attrCharsMap[ch] == 'S')
             {
@@ -1278,7 +1276,8 @@ FormatterToXML::characters(
 
                 if((ch < SPECIALSSIZE &&
                     m_charsMap[ch] == 'S') ||
-                    ch > m_maxCharacter)
+                    ch > m_maxCharacter ||
+                    (m_isXML1_1 && XalanUnicode::charLSEP == ch))
                 {
                     accumContent(chars, firstIndex, i - firstIndex);
 
@@ -1383,7 +1382,8 @@ FormatterToXML::writeAttrString(
 
         if((ch < SPECIALSSIZE &&
             m_attrCharsMap[ch] == 'S') ||
-            ch > m_maxCharacter)
+            ch > m_maxCharacter ||
+            (m_isXML1_1 && XalanUnicode::charLSEP == ch))
         {
             accumContent(theString, firstIndex, i - firstIndex);
 
